@@ -117,6 +117,23 @@ def gen_problem(rng):
             "history": hist}
 
 
+def gen_ransac_small(rng):
+    """every point must be eligible as a defining point: exactly three points (any order), or a short noisy arc plus one far
+    point of the circle in every list position, without outliers"""
+    cx, cy, rad = rng.uniform(-3, 3), rng.uniform(-3, 3), rng.uniform(1, 3)
+    a0 = rng.uniform(0, 2 * math.pi)
+    if rng.random() < 0.5:
+        angs = [a0, a0 + rng.uniform(1.5, 2.5), a0 + rng.uniform(3.5, 4.5)]
+        pts = [[cx + rad * math.cos(a), cy + rad * math.sin(a)] for a in angs]
+        rng.shuffle(pts)
+        return {"k": "c09.ransac", "pts": pts, "tol": 0.01, "iters": 300, "min_r": None, "max_r": None, "truth": [cx, cy, rad], "small": "three"}
+    m = rng.choice([3, 4, 5])
+    pts = [[cx + (rad + rng.uniform(-0.001, 0.001)) * math.cos(a0 + 0.05 * i), cy + (rad + rng.uniform(-0.001, 0.001)) * math.sin(a0 + 0.05 * i)] for i in range(m)]
+    far = [cx + rad * math.cos(a0 + math.pi), cy + rad * math.sin(a0 + math.pi)]
+    pts.insert(rng.choice([0, len(pts), len(pts), rng.randrange(len(pts) + 1)]), far)
+    return {"k": "c09.ransac", "pts": pts, "tol": 0.01, "iters": 300, "min_r": None, "max_r": None, "truth": [cx, cy, rad], "small": "arc+far"}
+
+
 def gen_ransac(rng):
     cx, cy, rad = rng.uniform(-3, 3), rng.uniform(-3, 3), rng.uniform(1, 3)
     pts = arc_points(rng, cx, cy, rad, rng.uniform(2, 6), 40, 0.002)
@@ -141,7 +158,7 @@ def generate(rng, tier):
     for _ in range(n // 4):
         out += [gen_fit(rng)]
     for _ in range(n // 20):
-        out += [gen_ransac(rng)]
+        out += [gen_ransac(rng), gen_ransac_small(rng), gen_ransac_small(rng)]
     return out
 
 
@@ -155,6 +172,8 @@ def tag(c, r):
         return "%s:%s:%s" % (k, "gauss" if c["sigma"] else "all", "noisy" if c["noise"] else "exact")
     if k == "c09.problem":
         return "%s:%s:h%d" % (k, "gauss" if c["sigma"] else "all", len(c["history"]))
+    if k == "c09.ransac":
+        return "%s:%s" % (k, c.get("small", "contaminated"))
     return k
 
 
@@ -309,9 +328,9 @@ def oracle(c, r):
                 yield ("fit-stationary", "returned circle %r is not a stationary point: gradient %r (sum |res| %r)" % ([cx, cy, rad], g, tot))
     elif k == "c09.ransac":
         if r.get("err"):
-            yield ("ransac-failed", "no candidate found")
+            yield ("ransac-failed", "no candidate found among %d points%s" % (len(c["pts"]), " (%s)" % c["small"] if c.get("small") else ""))
             return
         t = c["truth"]
         base = sum(1 for p in c["pts"] if abs(math.hypot(p[0] - t[0], p[1] - t[1]) - t[2]) < c["tol"])
-        if r["inliers"] < 0.9 * base:
+        if r["inliers"] < (base if c.get("small") else 0.9 * base):
             yield ("ransac-support", "RANSAC circle has %d inliers, the generating circle has %d" % (r["inliers"], base))
